@@ -6,6 +6,7 @@ package main
 
 import (
 	"fmt"
+	"runtime"
 	"strings"
 	"sync/atomic"
 	"time"
@@ -16,11 +17,11 @@ import (
 )
 
 const (
-	blockWait   = 200 * time.Millisecond
-	shortTO     = 30 * time.Millisecond // timeout of timed sends / waits
-	stillWait   = 3 * time.Second
+	shortTO     = 25 * time.Millisecond // timeout of timed sends / waits
+	stillWait   = 3 * time.Second       // parked sends are looked at again this long after the last call
 	recvCap     = 5
-	settleLimit = 400 * time.Millisecond
+	settleLimit = 10 * time.Second
+	timerLimit  = 10 * time.Second // a call with its own timer must return by itself
 )
 
 // Op is one scripted call (the replay format).
@@ -194,46 +195,55 @@ func (e *exec) collect(comps *[]string, human *[]string) bool {
 	return got
 }
 
-// atRest: message conservation says no pump goroutine is between taking and putting.
-func (e *exec) atRest(tl [][2]int, cl []int) bool {
-	for c, t := range e.subOf {
-		if t < 0 || e.tClosed[t] || e.closed {
+// allParked reports whether every goroutine of the process except the caller is parked
+// (blocked on a channel, select, mutex, wait group, timer ...). The scripted scenarios run
+// one after the other in this process, so this is exactly "the pump goroutines and all
+// callers have come to rest" and does not depend on the machine's load.
+var stackBuf = make([]byte, 4<<20)
+
+var lastStackCost time.Duration
+
+func allParked() bool {
+	t0 := time.Now()
+	n := runtime.Stack(stackBuf, true) // stops the world: do not do it back to back (see pollPause)
+	lastStackCost = time.Since(t0)
+	busy := 0
+	for _, line := range strings.Split(string(stackBuf[:n]), "\n") {
+		if !strings.HasPrefix(line, "goroutine ") {
 			continue
 		}
-		inflight := e.sentTo[t] - e.taken[t] - tl[t][0] - tl[t][1] - cl[c]
-		switch {
-		case inflight == 0 && (tl[t][0]+tl[t][1] == 0 || cl[c] == recvCap):
-		case inflight == 1 && cl[c] == recvCap:
-		default:
-			return false
+		i := strings.IndexByte(line, '[')
+		if i < 0 {
+			continue
+		}
+		st := line[i+1:]
+		if strings.HasPrefix(st, "running") || strings.HasPrefix(st, "runnable") || strings.HasPrefix(st, "syscall") ||
+			strings.HasPrefix(st, "preempted") || strings.HasPrefix(st, "copystack") {
+			busy++
 		}
 	}
-	return true
+	return busy <= 1 // the caller itself
 }
 
-// quiesce waits until the pump goroutines and woken callers have come to rest: the
-// snapshot (lengths, completions) must not change for a while and must be at rest.
+// quiesce waits until everything is parked (twice in a row, nothing completed in between).
 func (e *exec) quiesce(comps, human *[]string) ([][2]int, []int) {
-	need := 1500 * time.Microsecond
-	if e.closed || len(e.tClosed) > 0 || len(e.pend) > 0 || len(e.closeCh) > 0 {
-		need = 12 * time.Millisecond
-	}
 	start := time.Now()
-	lastChange := start
-	ptl, pcl := e.lens()
-	for {
-		time.Sleep(150 * time.Microsecond)
-		ch := e.collect(comps, human)
-		tl, cl := e.lens()
-		if ch || fmt.Sprint(tl, cl) != fmt.Sprint(ptl, pcl) {
-			lastChange = time.Now()
-			ptl, pcl = tl, cl
+	okCount := 0
+	for okCount < 2 && time.Since(start) < settleLimit {
+		runtime.Gosched()
+		if e.collect(comps, human) {
+			okCount = 0
+			continue
 		}
-		if (time.Since(lastChange) >= need && e.atRest(ptl, pcl)) || time.Since(start) > settleLimit {
-			break
+		if allParked() {
+			okCount++
+		} else {
+			okCount = 0
 		}
+		pollPause()
 	}
-	return ptl, pcl
+	e.collect(comps, human)
+	return e.lens()
 }
 
 func (e *exec) observe() string {
@@ -257,3 +267,46 @@ func (e *exec) emit(opTerm, human string) {
 }
 
 func (e *exec) noteLeak() { atomic.AddInt32(&e.leaked, 1) }
+
+// pollPause: leave the other goroutines at least as much time as the last stack dump took.
+func pollPause() {
+	d := 3 * lastStackCost
+	if d < 30*time.Microsecond {
+		d = 30 * time.Microsecond
+	}
+	time.Sleep(d)
+}
+
+// cleanup releases what can be released of a finished scenario (pump goroutines, the
+// queue's callback goroutine); calls that are parked for ever stay parked.
+func (e *exec) cleanup() {
+	for _, cl := range e.cl {
+		cl := cl
+		go func() {
+			defer func() { _ = recover() }()
+			cl.Close()
+		}()
+	}
+	q := e.q
+	go func() {
+		defer func() { _ = recover() }()
+		q.Close()
+	}()
+	// subscribers that stopped reading keep their pump parked on a full recv: drain
+	for _, cl := range e.cl {
+		cl := cl
+		go func() {
+			defer func() { _ = recover() }()
+			for i := 0; i < 64; i++ {
+				select {
+				case _, ok := <-cl.Recv():
+					if !ok {
+						return
+					}
+				case <-time.After(50 * time.Millisecond):
+					return
+				}
+			}
+		}()
+	}
+}
